@@ -446,7 +446,8 @@ def random_program(rng, nops):
     used = {j for nd in prog for j in nd["xs"] + nd["kx"]}
     unused = [j for j in range(1, len(prog) + 1) if j not in used]
     if not dl[-1] or len(unused) > 1:
-        push(node("call", "f2", xs=unused[-3:], pure=rng.random() < 0.5))
+        if not push(node("call", "f2", xs=unused[-3:], pure=rng.random() < 0.5)):
+            return random_program(rng, nops)
     return prog
 
 
